@@ -175,6 +175,26 @@ where
         .boxed_local()
 }
 
+/// the real transformer, with the outcome of every message logged (what `connection` logs), so that it can sit inside the REAL ExchangeStream
+struct Logged<T> { tf: T, log: Log, k: usize }
+impl<T> Transformer for Logged<T>
+where
+    T: Transformer<Output = MarketEvent<Key, OrderBookEvent>, Error = DataError, OutputIter = Vec<Out>>,
+{
+    type Error = DataError;
+    type Input = T::Input;
+    type Output = MarketEvent<Key, OrderBookEvent>;
+    type OutputIter = Vec<Out>;
+    fn transform(&mut self, input: Self::Input) -> Self::OutputIter {
+        let out = self.tf.transform(input);
+        let oks = out.iter().filter(|o| o.is_ok()).count();
+        let hard = out.iter().filter(|o| matches!(o, Err(e) if e.is_terminal())).count();
+        self.log.borrow_mut().push((self.k, oks, hard, out.len() - oks - hard));
+        self.k += 1;
+        out
+    }
+}
+
 struct Case { venue: Venue, snaps: [u64; 2], deliveries: Vec<Upd>, desc: String, gap_free: bool }
 
 fn run_case<T>(case: &Case, make: &dyn Fn([u64; 2]) -> T, chains: &[Vec<Upd>; 2], seen: &mut HashSet<&'static str>)
@@ -541,7 +561,10 @@ where
             let buffered_out = barter_data::process_buffered_events::<WebSocketParser, _>(&mut tf, buffered);
             let mut processed: std::collections::VecDeque<_> = snapshots.into_iter().map(Ok).collect();
             processed.extend(buffered_out);
-            futures::stream::iter(processed).chain(connection(tf, payloads, log))
+            // the connection's stream is the REAL ExchangeStream (= ExchangeWsStream over an in-memory socket): seeded with the hand-over buffer, it
+            // yields the buffer front to back and then the outputs of every message read from the socket
+            let socket = futures::stream::iter(payloads.into_iter().map(|p| Ok::<WsMessage, barter_integration::protocol::websocket::WsError>(WsMessage::text(p))).collect::<Vec<_>>());
+            barter_integration::stream::ExchangeStream::<WebSocketParser, _, _>::new(socket, Logged { tf, log, k: 0 }, processed)
         })
         .with_termination_on_error(|e: &DataError| e.is_terminal(), key)
         .with_reconnection_events(exchange)
